@@ -209,13 +209,40 @@ Proof.
   unfold exp_mean, exp_std_moment, exp_mgf, exp_mgf_formula, exp_drift, exp_omega, exp_exponent_at_minus_i, levy_mgf.
   rewrite <- exp_plus. f_equal. ring.
 Qed.
-(* the constructor's guard: it raises ValueError exactly when kappa(1) is not finite; otherwise omega = -kappa(1) *)
-Lemma exp_omega_checked_spec finite1 kappa :
-  exp_omega_checked finite1 kappa = if finite1 then Some (- kappa 1) else None.
+(* the constructor's guard on the data (isfinite z, Re z, Im z): success iff z is finite and numerically real *)
+Lemma exp_omega_checked_spec finite1 z_re z_im :
+  exp_omega_checked finite1 z_re z_im
+  = if finite1 && Rleb (Rabs z_im) (1 / 1000000000000 * Rmax 1 (Rabs z_re)) then Some (- z_re) else None.
 Proof.
-  unfold exp_omega_checked, exp_omega_raises, exp_omega, exp_exponent_at_minus_i. cbv zeta.
-  assert (E : Rltb (IZR 1 / IZR 1000000000000 * Rmax (IZR 1 / IZR 1) (Rabs (kappa 1))) (Rabs 0) = false).
-  { apply Rltb_false. rewrite Rabs_R0. apply Rmult_le_pos; [lra|]. eapply Rle_trans; [|apply Rmax_l]. lra. }
+  unfold exp_omega_checked, exp_omega_raises, exp_omega.
+  replace (IZR 1 / IZR 1000000000000 * Rmax (IZR 1 / IZR 1) (Rabs z_re)) with (1 / 1000000000000 * Rmax 1 (Rabs z_re))
+    by (replace (IZR 1 / IZR 1) with 1 by field; reflexivity).
+  set (t := 1 / 1000000000000 * Rmax 1 (Rabs z_re)).
+  destruct finite1; simpl; [|reflexivity].
+  unfold Rltb, Rleb. destruct (Rlt_dec t (Rabs z_im)), (Rle_dec (Rabs z_im) t); try reflexivity; exfalso; lra.
+Qed.
+(* sufficient conditions without Rmax, for the case lemmas of the correspondence *)
+Lemma exp_omega_checked_none re im : 1 / 1000000000000 * (1 + Rabs re) < Rabs im -> exp_omega_checked true re im = None.
+Proof.
+  intro H. rewrite exp_omega_checked_spec. simpl.
+  assert (F : Rleb (Rabs im) (1 / 1000000000000 * Rmax 1 (Rabs re)) = false).
+  { apply Rleb_false. eapply Rle_lt_trans; [|exact H]. apply Rmult_le_compat_l; [lra|].
+    pose proof (Rabs_pos re). apply Rmax_lub; lra. }
+  rewrite F. reflexivity.
+Qed.
+Lemma exp_omega_checked_some re im : Rabs im <= 1 / 1000000000000 -> exp_omega_checked true re im = Some (- re).
+Proof.
+  intro H. rewrite exp_omega_checked_spec. simpl.
+  assert (T : Rleb (Rabs im) (1 / 1000000000000 * Rmax 1 (Rabs re)) = true).
+  { apply Rleb_true. eapply Rle_trans; [exact H|]. pose proof (Rmax_l 1 (Rabs re)). nra. }
+  rewrite T. reflexivity.
+Qed.
+Lemma exp_omega_checked_real finite1 kappa :
+  exp_omega_checked finite1 (exp_exponent_at_minus_i kappa) 0 = if finite1 then Some (- kappa 1) else None.
+Proof.
+  rewrite exp_omega_checked_spec. unfold exp_exponent_at_minus_i.
+  assert (E : Rleb (Rabs 0) (1 / 1000000000000 * Rmax 1 (Rabs (kappa 1))) = true).
+  { apply Rleb_true. rewrite Rabs_R0. apply Rmult_le_pos; [lra|]. eapply Rle_trans; [|apply Rmax_l]. lra. }
   rewrite E. destruct finite1; reflexivity.
 Qed.
 
@@ -347,14 +374,48 @@ Proof.
   - intros. apply vg_cgmy_same_law; assumption.
 Qed.
 
-Lemma omega_guard_all : forall finite1 kappa,
-  exp_omega_checked finite1 kappa = (if finite1 then Some (- kappa 1) else None)
-  /\ (forall w r d t, exp_omega_checked finite1 kappa = Some w ->
-        finite1 = true /\ w = exp_omega (exp_exponent_at_minus_i kappa) /\ exp_mean (exp_mgf kappa r d) t = exp ((r - d) * t)).
+Lemma omega_guard_all :
+  (* the generated guard, on the observed data of z = complex(levy_exponent(-1j)) *)
+  (forall finite1 z_re z_im, exp_omega_checked finite1 z_re z_im
+      = if finite1 && Rleb (Rabs z_im) (1 / 1000000000000 * Rmax 1 (Rabs z_re)) then Some (- z_re) else None)
+  (* per family, UNDER the stated link between the data and the parameters (finite, real and equal to kappa(1) exactly when the
+     right-tail rate exceeds 1 -- a hypothesis about the closed-form exponents, discharged only by the harness oracle):
+     the constructor succeeds iff 1 < tail rate, and then omega = -kappa(1), hence the martingale forward *)
+  /\ (forall tail_rate finite1 z_re z_im kappa,
+        (strip_contains_one tail_rate = true -> finite1 = true /\ z_im = 0 /\ z_re = kappa 1) ->
+        (strip_contains_one tail_rate = false -> finite1 = false \/ 1 / 1000000000000 * Rmax 1 (Rabs z_re) < Rabs z_im) ->
+        (exp_omega_checked finite1 z_re z_im <> None <-> 1 < tail_rate)
+        /\ (forall w r d t, exp_omega_checked finite1 z_re z_im = Some w ->
+              w = exp_omega (exp_exponent_at_minus_i kappa) /\ exp_mean (exp_mgf kappa r d) t = exp ((r - d) * t))).
 Proof.
-  intros finite1 kappa. split; [apply exp_omega_checked_spec|].
-  intros w r d t H. rewrite exp_omega_checked_spec in H. destruct finite1; [|discriminate]. inversion H; subst.
-  repeat split. apply exp_mean_martingale.
+  split; [exact exp_omega_checked_spec|].
+  intros tail_rate finite1 z_re z_im kappa Hin Hout. unfold strip_contains_one in *.
+  destruct (Rltb 1 tail_rate) eqn:E.
+  - destruct (Hin eq_refl) as (-> & -> & ->). apply Rltb_true in E.
+    change (kappa 1) with (exp_exponent_at_minus_i kappa). rewrite exp_omega_checked_real. split.
+    + split; [intros _; exact E | intros _; discriminate].
+    + intros w r d t H. inversion H; subst. split; [reflexivity | apply exp_mean_martingale].
+  - assert (N : exp_omega_checked finite1 z_re z_im = None).
+    { rewrite exp_omega_checked_spec. destruct (Hout eq_refl) as [-> | Hlt]; [reflexivity|].
+      destruct finite1; [|reflexivity]. simpl. assert (F : Rleb (Rabs z_im) (1 / 1000000000000 * Rmax 1 (Rabs z_re)) = false) by (apply Rleb_false; exact Hlt).
+      rewrite F. reflexivity. }
+    apply Rltb_false in E. split.
+    + split; [intro H; contradiction | intro H; exfalso; lra].
+    + intros w r d t H. rewrite N in H. discriminate.
+Qed.
+
+Lemma hem_omega_guard_all : forall eta1 finite1 z_re z_im kappa,
+  (1 < eta1 -> finite1 = true /\ z_im = 0 /\ z_re = kappa 1) ->
+  (hem_exp_omega_checked eta1 finite1 z_re z_im <> None <-> 1 < eta1)
+  /\ (forall w, hem_exp_omega_checked eta1 finite1 z_re z_im = Some w -> w = - kappa 1).
+Proof.
+  intros eta1 finite1 z_re z_im kappa Hin. unfold hem_exp_omega_checked, hem_exp_raises.
+  destruct (Rleb eta1 (IZR 1)) eqn:E.
+  - apply Rleb_true in E. split; [split; [intro H; contradiction | intro H; exfalso; lra]|]. intros w H. discriminate.
+  - apply Rleb_false in E. destruct (Hin E) as (-> & -> & ->).
+    change (kappa 1) with (exp_exponent_at_minus_i kappa). rewrite exp_omega_checked_real. unfold exp_exponent_at_minus_i. split.
+    + split; [intros _; exact E | intros _; discriminate].
+    + intros w H. inversion H. reflexivity.
 Qed.
 
 Lemma coefficients_all : forall uninit k a b, b <> a ->
